@@ -736,6 +736,57 @@ pub fn forged_first_fragments(msg_type: u8, rec_seq0: u64) -> Vec<Vec<u8>> {
     out
 }
 
+/// Well-framed ClientHellos (victim = server) / ServerHellos (victim = client), message_seq 0 and 1,
+/// whose extension block carries ONE hostile extension body next to ordinary ones.
+pub fn hello_extension_sweep(victim_server: bool) -> Vec<(String, Vec<u8>)> {
+    let bodies: Vec<Vec<u8>> = vec![
+        vec![], vec![0], vec![0, 0], vec![0, 2], vec![0, 2, 0], vec![0, 2, 0, 1], vec![0, 2, 0, 1, 0],
+        vec![0, 4, 0, 1, 0], vec![0, 4, 0, 1], vec![0, 3, 0, 1, 0, 2], vec![0xff, 0xff], vec![0xff, 0xff, 0, 1],
+        vec![0, 1, 0], vec![1], vec![1, 0], vec![2, 0], vec![0, 2, 0, 1, 5, 1, 2], vec![0, 6, 0, 1, 0, 2, 0, 7, 0xff],
+        vec![0, 0, 0], vec![0x7f; 5], vec![0, 8, 0, 29, 0, 23, 0, 24], vec![3, 0, 1],
+    ];
+    let types: [u16; 9] = [14, 10, 11, 13, 23, 0xff01, 35, 16, 0x1234];
+    let mut out = vec![];
+    let mut rs = 1u64 << 30;
+    for ty in types {
+        for (bi, b) in bodies.iter().enumerate() {
+            for (pos, trailing) in [(0usize, true), (1, false)] {
+                // extension block: [ordinary EMS] [hostile] [ordinary point formats] / hostile last
+                let mut exts: Vec<(u16, Vec<u8>)> = vec![(23, vec![])];
+                exts.push((ty, b.clone()));
+                if trailing {
+                    exts.push((11, vec![1, 0]));
+                }
+                let mut block = vec![];
+                for (t, d) in &exts {
+                    block.extend_from_slice(&t.to_be_bytes());
+                    block.extend_from_slice(&(d.len() as u16).to_be_bytes());
+                    block.extend_from_slice(d);
+                }
+                let mut body = vec![0xfe, 0xfd];
+                body.extend_from_slice(&[0x5a; 32]); // random
+                body.push(0); // session id
+                if victim_server {
+                    body.push(0); // cookie
+                    body.extend_from_slice(&[0, 2, 0xc0, 0x2b]); // cipher suites
+                    body.extend_from_slice(&[1, 0]); // compression methods
+                } else {
+                    body.extend_from_slice(&[0xc0, 0x2b]); // chosen suite
+                    body.push(0); // compression
+                }
+                body.extend_from_slice(&(block.len() as u16).to_be_bytes());
+                body.extend_from_slice(&block);
+                let t = if victim_server { 1u8 } else { 2u8 };
+                let mseq = if victim_server { 0 } else { pos as u16 };
+                let d = raw_record(22, 0, rs, &raw_hs(t, body.len() as u32, mseq, 0, body.len() as u32, &body));
+                rs += 1;
+                out.push((format!("ext{ty}:body{bi}:{}", if trailing { "mid" } else { "last" }), d));
+            }
+        }
+    }
+    out
+}
+
 /// Application-data marker round trip in both directions; true if both arrived.
 async fn dtls_marker_probe(rig: &mut Rig, n: u64) -> bool {
     let mut ok_cs = false;
@@ -814,6 +865,47 @@ fn dtls_body(mut c: Camp) -> Pin<Box<dyn Future<Output = (Camp, End)> + Send>> {
             }
         };
         match state.as_str() {
+            "hello_ext" => {
+                // The extension walk of a hello runs only for the FIRST well-framed hello a
+                // fresh endpoint sees (later ones are treated as retransmissions): one fresh rig
+                // per crafted hello. Framing is correct throughout; only extension bodies are
+                // hostile (declared list lengths larger / smaller than the data, odd trailing
+                // bytes, empty bodies, length fields at the end of the block).
+                rig.client.dtls.close();
+                rig.server.dtls.close();
+                drop(rig);
+                let hellos = hello_extension_sweep(victim_server);
+                let total = hellos.len();
+                for (i, (label, d)) in hellos.into_iter().enumerate() {
+                    let rig = match build_rig(Mode::Forward, Mode::Forward).await {
+                        Ok(r) => r,
+                        Err(e) => return (c, End::Inconclusive(e)),
+                    };
+                    let p = if victim_server { &rig.client } else { &rig.server };
+                    p.set_mode(Mode::Drop, None).await;
+                    let r = if victim_server { rig.server.runner.lock().take() } else { rig.client.runner.lock().take() };
+                    let h = r.map(tokio::spawn);
+                    tokio::task::yield_now().await;
+                    inject(&mut c, &rig, d).await;
+                    // a second, genuine-looking hello behind it: the task must still be there to take it
+                    tokio::time::sleep(Duration::from_millis(8)).await;
+                    if let Some(h) = &h {
+                        if h.is_finished() {
+                            c.seen("live.dtls.hello_ext_runner_ended_after", label.clone());
+                        }
+                    }
+                    c.seen("live.dtls.hello_ext_variants", label.split(':').next().unwrap_or("").to_string());
+                    rig.client.dtls.close();
+                    rig.server.dtls.close();
+                    if i % 16 == 15 {
+                        tokio::task::yield_now().await;
+                    }
+                }
+                c.count("live.dtls.hello_ext_hellos", total as u64);
+                // no heap-growth verdict here: the campaign builds hundreds of rigs (certificates,
+                // sockets, tasks) itself; panics and the single-allocation bound stay active
+                (c, End::Live)
+            }
             "seqflood" => {
                 // 65 540 in-order, empty HelloRequest messages (50 per datagram): every one is
                 // accepted as "the expected message_seq", so the receive counter walks through
@@ -1857,6 +1949,7 @@ fn specs(args: &Args) -> Vec<Spec> {
         push("dtls", dtls_body, json!({"state":"established","victim":victim,"n":nd/2,"alerts":true}));
         push("dtls", dtls_body, json!({"state":"closing","victim":victim,"n":nd/2,"alerts":true}));
         push("dtls", dtls_body, json!({"state":"seqflood","victim":victim,"n":1311}));
+        push("dtls", dtls_body, json!({"state":"hello_ext","victim":victim,"n":0}));
         push("dtls", dtls_body, json!({"state":"pre","victim":victim,"n":nd,"flood":"fragments"}));
         push("dtls", dtls_body, json!({"state":"mid","victim":victim,"k":1,"n":nd,"flood":"fragments"}));
     }
